@@ -51,7 +51,7 @@ def _attempt(E, L, idx, a):
     from quantity import Quantity, Unit
     name, req, exc, fn, syms = D.INVALID[idx]
     before = D.observe_directories(POOL_SYMS)
-    exc_cls = {'ValueError': ValueError, 'TypeError': TypeError}[exc]
+    exc_cls = {'ValueError': ValueError, 'TypeError': TypeError, 'AssertionError': AssertionError}[exc]
     try:
         fn(L)
     except exc_cls:
